@@ -46,7 +46,7 @@ CHECKS = {
          "On every transition of the Parser state graph: post-remainder equals what string::{strip_*,trim*,trim_*_matches,find_skip,rfind_skip} compute from the pre-remainder and what a boring std-based model predicts (split_once/rsplit_once/find/prefix-integer/bool), Ok iff the reference finds something, documented error kind, returned piece/number; repeating split/rsplit/split_terminator/rsplit_terminator from each initial state against str::split/rsplit.",
          "3/C14"),
  "C10": ("program-space exploration: all adapter chains up to a depth bound generated from the method grammar (std-typeable compositions only) x all consumers, compiled by rustc and run on all small input arrays next to the identical std chain",
-         "Every chain of the 18 adapter instances up to the depth bound over 5 sources x for_each!/14 eval! consumers/collect_const!, each executed on every input array over a small alphabet up to the length bound and compared with the same std chain (enumerate as EnumInOrder, rposition as rev().position()); unexpected rejections by rustc are violations; the known deviation (order-sensitive adapter before a reversal) is matched behaviourally against the reverse-hoisted model and reported as KNOWN-FINDING F7.",
+         "Every chain of the 20 adapter instances up to the depth bound over 8 sources (slices, ranges, slice iterators, string::chars/split, nested slices) x for_each!/14 eval! consumers/collect_const!, each executed on every input array over a small alphabet up to the length bound and compared with the same std chain (enumerate as EnumInOrder, rposition as rev().position()); unexpected rejections by rustc are violations; the known deviation (order-sensitive adapter before a reversal) is matched behaviourally against the reverse-hoisted model and reported as KNOWN-FINDING F7.",
          "3/C10"),
  "C11": ("program-space exploration of array-macro invocations x closure behaviours (every early-exit kind at every element) plus exhaustive operation histories on ArrayBuilder with a reference model",
          "array::map!/map_!/from_fn!/from_fn_!/collect_const! for every length up to the bound, element types, parameter forms and closure behaviours (well-behaved or break/continue/return/?/labelled break/continue/panic at each element): well-behaved programs must equal std, hostile ones must not yield any array other than std's; ArrayBuilder: every push/build/clone/drop history up to depth N+4 incl. over- and under-filling against a vec model.",
